@@ -91,6 +91,11 @@ def write_evidence(args, prop, mod, tot, xres, n_viol, wall, known_printed):
     with open(tmp, "w") as f:
         json.dump(ev, f, indent=1, default=str)
     os.replace(tmp, path)
+    if args.tier == "thorough":
+        # the registered evidence file is rewritten by every run; keep the last thorough one beside it
+        os.makedirs(os.path.join(args.evidence_dir, "thorough"), exist_ok=True)
+        with open(os.path.join(args.evidence_dir, "thorough", "%s.json" % prop), "w") as f:
+            json.dump(ev, f, indent=1, default=str)
     return path
 
 
